@@ -70,13 +70,15 @@ def main():
             before = self.snapshot()
             was_init = self.o.storage_initialized
             res_before = self.o.storage_resolution
+            crash = None
             try:
                 self.o._add_data(arr, resolution=LEVELS[level],
                                  dtype=code_dtype(dtype),
                                  tag=None if tag == "none" else tag)
                 ok = True
-            except Exception:
+            except Exception as ex:
                 ok = False
+                crash = None if type(ex) is Exception else type(ex).__name__
             try:
                 self.o2._add_data(x * BSHAPE, resolution=LEVELS[level],
                                   dtype=code_dtype(dtype),
@@ -88,6 +90,10 @@ def main():
                 self.shadow = "addition %r accepted=%s for 1x1 data, %s for " \
                     "3x5 data" % ([level, dtype, tag], ok, ok2)
             self.hist.append(["add", level, dtype, tag, x, ok])
+            if crash:
+                # (the library refuses with a plain Exception; anything else
+                # is an operation that broke down, not a refusal)
+                return ok, "crash: addition raised " + crash
             if ok:
                 key = (level, dtype, tag)
                 self.led[key] = self.led.get(key, 0) + x
@@ -101,11 +107,13 @@ def main():
         def setres(self, new):
             before = self.snapshot()
             res_before = self.o.storage_resolution
+            crash = None
             try:
                 self.o.set_resolution(LEVELS[new])
                 ok = True
-            except Exception:
+            except Exception as ex:
                 ok = False
+                crash = None if type(ex) is Exception else type(ex).__name__
             try:
                 self.o2.set_resolution(LEVELS[new])
                 ok2 = True
@@ -115,6 +123,8 @@ def main():
                 self.shadow = "set_resolution(%s) accepted=%s for 1x1 data, " \
                     "%s for 3x5 data" % (LEVELS[new], ok, ok2)
             self.hist.append(["setres", new, ok])
+            if crash:
+                return ok, "crash: set_resolution raised " + crash
             if not ok:
                 if (not _same(before, self.snapshot()) or
                         self.o.storage_resolution != res_before):
@@ -245,7 +255,9 @@ def main():
             elif res == 2:
                 out["procs"] = [[p, val(a)] for p, a in d.items()]
             elif res == 1:
-                out["sigs"] = [[inv[s], val(a)] for s, a in d.items()]
+                # (a key that is no signal name is reported as stored)
+                out["sigs"] = [[inv.get(s, str(s)), val(a)]
+                               for s, a in d.items()]
             else:
                 out["tot"] = [val(a) for k, a in d.items()]
             return out
@@ -301,7 +313,8 @@ def main():
             else:
                 raise MachineryFailure("unknown action %s" % act)
             if why:
-                ck.violation("refusal-keeps-data", "refusal", dict(
+                ck.violation("operation-breaks-down" if why.startswith(
+                    "crash") else "refusal-keeps-data", "refusal", dict(
                     history=real.hist, why=why), dict(history=real.hist))
                 break
             bad, views = real.check_views()
@@ -355,7 +368,8 @@ def main():
             ev.update(real.stored())
             tr.append(ev)
             if why:
-                ck.violation("refusal-keeps-data", "refusal", dict(
+                ck.violation("operation-breaks-down" if why.startswith(
+                    "crash") else "refusal-keeps-data", "refusal", dict(
                     history=real.hist, why=why), dict(history=real.hist))
                 break
             bad, views = real.check_views()
